@@ -493,3 +493,23 @@ MUTANTS += [
             ret = snprintf(pbuf, available, "[");''')],
      'expect': {'C14': 'RENDER'}},
 ]
+
+# ---- C07 ENSURE ------------------------------------------------------------------------------------------------------------
+MUTANTS += [
+    {'name': 'c07_ensure_wrong_type_not_latched', 'edits': [(P, '''        if (field_type == binson_parser_get_type(parser)) {
+            return true;
+        }
+        parser->error_flags = BINSON_ERROR_WRONG_TYPE;''', '''        if (field_type == binson_parser_get_type(parser)) {
+            return true;
+        }''')],
+     'expect': {'C07': 'ENSURE'}},
+    {'name': 'c07_next_ensure_accepts_containers_as_any', 'edits': [(P, '''    if (parser->current_state->current_type != field_type) {
+        parser->error_flags = BINSON_ERROR_WRONG_TYPE;
+        return false;
+    }''', '''    if (parser->current_state->current_type != field_type &&
+        parser->current_state->current_type != BINSON_TYPE_OBJECT) {
+        parser->error_flags = BINSON_ERROR_WRONG_TYPE;
+        return false;
+    }''')],
+     'expect': {'C07': 'ENSURE'}},
+]
